@@ -74,6 +74,12 @@ class SimComm:
     def recv(self, source=ANY_SOURCE, tag=0, status=None):
         return self._w._recv(self.rank, source)
 
+    def iprobe(self, source=ANY_SOURCE, tag=0, status=None):
+        """Non-blocking test for a visible message (a scheduling point)."""
+        return self._w._iprobe(self.rank, source)
+
+    Iprobe = iprobe
+
     def Abort(self, errorcode=0):
         self._w.abort_called = True
         raise _Abort()
@@ -234,6 +240,16 @@ class World:
             if tot > self.stats["max_inflight"]:
                 self.stats["max_inflight"] = tot
         return pickle.loads(m.payload)
+
+    def _iprobe(self, r, source):
+        if source is None:
+            source = ANY_SOURCE
+        rk = self.ranks[r]
+        rk.state = RUNNABLE
+        self.decisions.append((r, "iprobe", source))
+        self._yield(r)
+        m, _ = self._visible_head(r, source)
+        return m is not None
 
     def _visible_head(self, r, source, pick=False):
         cands = []
